@@ -6,6 +6,7 @@ HARNESSES = {
     "replay_range": (["asan"], None),
     "record": (["plain", "asan"], None),
     "replay_cb": (["asan"], None),
+    "replay_history": (["plain"], None),
 }
 def build_all():
     for name, (variants, extra) in HARNESSES.items():
